@@ -65,6 +65,16 @@ REVIVE = [
     '[[1,2],[3]]', '{"a":{"a":1,"b":"y"},"b":[1,{"a":2}]}', '[{"a":1,"b":2},"a"]', '{"a":[1,2,3]}', '[1,2,3]', '{"b":{"a":"s"}}', '{"a":1,"a":2}', '["a",["b",["c"]]]',
     '{"a":"x","b":"y","c":"z","d":"w"}', '{"0":1,"1":2}', '[1,]', '{"a":1,}', '',
 ]
+# texts containing the member name "toJSON" (data, not a method: 15.12.3 Str step 2.b asks IsCallable):
+# parsed, and round-tripped through stringify(parse(t))
+TOJSON = [
+    '{"toJSON":{"x":2}}', '{"a":1,"toJSON":{"x":2}}', '{"toJSON":{"x":2},"a":1}', '{"toJSON":[1,2]}', '[{"toJSON":{}}]', '{"toJSON":[]}', '{"toJSON":{}}',
+    '{"toJSON":1}', '{"toJSON":null}', '{"toJSON":"s"}', '{"toJSON":true}', '{"toJSON":false}', '{"toJSON":-0.5}', '{"toJSON":""}',
+    '{"toJSON":{"toJSON":{"toJSON":1}}}', '{"toJSON":[{"toJSON":[{"toJSON":[]}]}]}', '{"a":{"toJSON":{"b":[{"toJSON":[]}]}}}',
+    '[[{"toJSON":{"a":1}},2],{"toJSON":[{"toJSON":0}]}]', '{"toJSON":{"a":1},"toJSON":2}', '{"toJSON":2,"toJSON":{"a":1}}', '{"b":{"toJSON":[null]},"a":[{"toJSON":{"c":"d"}}]}',
+    '{"tojson":{"x":1}}', '{"toJSON ":{"x":1}}', '{"\\u0074oJSON":{"x":1}}', '{"TOJSON":[1]}', '{"toJSON":{"x":1},"toString":{"y":2},"valueOf":[3]}',
+    '[{"toJSON":[1]},{"toJSON":{"a":2}},{"toJSON":3}]', '{"x":[{"toJSON":{"toJSON":[{"a":{"toJSON":{}}}]}}]}',
+]
 # alphabet of the mutations: { } [ ] , : " \ 0 1 - + . e E u t n a space TAB ' / U+0001
 ALPHA = '{}[],:"\\01-+.eEutna \t\'/\x01'
 
@@ -84,6 +94,7 @@ seq("ExtraTexts", [s for s in EXTRA if not heavy(s)])
 seq("ExtraHeavyTexts", [s for s in EXTRA if heavy(s)])
 seq("SurrTexts", SURR)
 seq("ReviveTexts", REVIVE)
+seq("ToJSONTexts", TOJSON)
 out.append("MutAlphabet == %s" % tup(ALPHA))
 out.append("S_iso_epoch == %s" % tup("1970-01-01T00:00:00.000Z"))
 out.append("====")
